@@ -393,3 +393,33 @@ func c08retryLooksUpAgain(c *Ctx) {
 	}
 	r.Floor("RETRY", "AddOrUpdatePod calls in the retry loop of assign", n, 1)
 }
+
+// c20handlerExclusive: the ConfigMap event handler applies a new configuration with the cache lock
+// held in WRITE mode. The lazy initialisation (IsCfgAvailable) fetches a ConfigMap version and
+// applies it inside a read-mode hold; only the handler's write mode keeps an event from being
+// applied in the middle of it, after which the older version the initialisation holds would be
+// applied on top of the newer one and stay.
+func c20handlerExclusive(c *Ctx) {
+	r := c.R
+	r.Rule("EXCLUSIVE(event handler): in syncNodeSLOSpecIfChanged every syncConfig call runs with a mutex held in write mode")
+	fn := c.Fn(nodesloPkg, "SLOCfgHandlerForConfigMapEvent", "syncNodeSLOSpecIfChanged")
+	if fn == nil {
+		return
+	}
+	locks := an.NewAnyLocks()
+	n := 0
+	for _, cl := range an.Calls(fn, false) {
+		if an.ShortCallee(cl.Common()) != "syncConfig" {
+			continue
+		}
+		n++
+		w := false
+		for _, isW := range locks.HeldAt(cl) {
+			if isW {
+				w = true
+			}
+		}
+		r.Check(w, "EXCLUSIVE", sprintf("%s/syncConfig#%d/write-mode", fkey(fn), n), c.InstrPos(cl), "the new configuration is applied under a write-held mutex", "the event handler applies the new configuration without a write-mode hold: the lazy initialisation, which fetches and applies a ConfigMap version inside a read-mode hold, can run around it and put the older version back; no later event repairs it")
+	}
+	r.Floor("EXCLUSIVE", "syncConfig calls in the event handler", n, 1)
+}
